@@ -142,6 +142,14 @@ Raise ValueError
 Ok VNone
 ).
 
+(* fragment sv_cm_n_current_slices from sparse/numba_backend/_coo/indexing.py:_compute_mask selector=None srchash=e615d73c8baac6de *)
+Definition sv_cm_n_current_slices (rlen : pyv) (n_pairs : pyv) : res pyv :=
+(t2_ <- (t1_ <- Ok rlen ;; py_mul t1_ n_pairs) ;; py_add t2_ (VInt (2))).
+
+(* float test sv_cm_break from sparse/numba_backend/_coo/indexing.py:_compute_mask: `n_current_slices * np.log(n_current_slices / max(n_pairs, 1)) > n_matches + n_pairs` srchash=34c4adf327056998 *)
+Definition sv_cm_break (F : fops) (n_current_slices n_pairs n_matches : ft F) : bool :=
+(f_gt F (f_mul F n_current_slices (f_log F (f_div F n_current_slices (f_max F n_pairs (f_of_Z F (1)))))) (f_add F n_matches n_pairs)).
+
 (* fragment sv_dcn_outer_test from sparse/numba_backend/_common.py:_dot_coo_ndarray selector=None srchash=638841bb10b30445 *)
 Definition sv_dcn_outer_test (didx1 : pyv) (n : pyv) (ncols : pyv) : res pyv :=
 (t2_ <- (t3_ <- Ok n ;; py_lt didx1 t3_) ;; if cond t2_ then (t1_ <- Ok ncols ;; py_gt t1_ (VInt (0))) else Ok t2_).
@@ -177,9 +185,9 @@ Definition site_prog_dot : prog :=
 Definition site_prog_coo_getitem : prog :=
 (PSeq (PIf (PSeq (PIf PRaise PSkip) (PSeq (PKer "COO"%string) PReturn)) PSkip) (PSeq (PVal "normalize_index"%string) (PSeq (PIf PReturn PSkip) (PSeq (PKer "_mask"%string) (PSeq (PIf (PKer "stack"%string) (PIf PSkip (PSeq (PIf PReturn PSkip) PReturn))) (PSeq (PKer "COO"%string) PReturn)))))).
 
-(* call skeleton site_prog_matmul of sparse/numba_backend/_common.py:matmul skelhash=d0dd6acc8a3c0eed *)
+(* call skeleton site_prog_matmul of sparse/numba_backend/_common.py:matmul skelhash=84be86f7610bb858 *)
 Definition site_prog_matmul : prog :=
-(PSeq (PVal "check_zero_fill_value"%string) (PSeq (PIf PRaise PSkip) (PSeq (PIf PRaise PSkip) (PSeq (PIf (PSeq (PKer "dot"%string) PReturn) PSkip) (PSeq (PIf (PSeq (PKer "dot"%string) (PSeq (PKer "transpose"%string) PReturn)) PSkip) (PSeq (PIf (PSeq (PSeq (PKer "reshape"%string) (PKer "dot"%string)) (PSeq (PKer "reshape"%string) PReturn)) PSkip) (PSeq (PIf (PSeq (PKer "reshape"%string) (PSeq (PKer "dot"%string) PReturn)) PSkip) (PSeq (PLoop (PIf PRaise PSkip)) (PSeq (PKer "_matmul_recurser"%string) PReturn))))))))).
+(PSeq (PVal "check_zero_fill_value"%string) (PSeq (PIf PRaise PSkip) (PSeq (PIf PRaise PSkip) (PSeq (PIf (PSeq (PKer "dot"%string) PReturn) PSkip) (PSeq (PIf (PSeq (PKer "dot"%string) PReturn) PSkip) (PSeq (PIf (PSeq (PKer "dot"%string) (PSeq (PKer "transpose"%string) PReturn)) PSkip) (PSeq (PIf (PSeq (PSeq (PKer "reshape"%string) (PKer "dot"%string)) (PSeq (PKer "reshape"%string) PReturn)) PSkip) (PSeq (PIf (PSeq (PKer "reshape"%string) (PSeq (PKer "dot"%string) PReturn)) PSkip) (PSeq (PLoop (PIf PRaise PSkip)) (PSeq (PKer "_matmul_recurser"%string) PReturn)))))))))).
 
 (* call skeleton site_prog_parse_einsum of sparse/numba_backend/_common.py:_parse_einsum_input skelhash=3d8ad94e54624a24 *)
 Definition site_prog_parse_einsum : prog :=
